@@ -4,6 +4,7 @@ import (
 	"context"
 	"math/big"
 
+	sdkmath "cosmossdk.io/math"
 	sdk "github.com/cosmos/cosmos-sdk/types"
 	authtypes "github.com/cosmos/cosmos-sdk/x/auth/types"
 	banktypes "github.com/cosmos/cosmos-sdk/x/bank/types"
@@ -45,8 +46,17 @@ func c12TokenEnv() (*vEnv, keeper.Keeper) {
 func VerifC12_Token() {
 	verifExpect("roundtrip", "burned", "capLowered")
 	e, k := c12TokenEnv()
-	if err := k.SetParams(e.ctx, v1.DefaultParams()); err != nil {
-		verifFail("default params rejected")
+	par := v1.DefaultParams()
+	if verifChoice("changedParams", 2) == 1 {
+		// a parameter set the authority has changed (every figure differs from the defaults)
+		par.TokenTaxRate = sdkmath.LegacyNewDecWithPrec(15, 2)
+		par.MintTokenFeeRatio = sdkmath.LegacyNewDecWithPrec(35, 2)
+		par.IssueTokenBaseFee = sdk.NewInt64Coin(par.IssueTokenBaseFee.Denom, 77777)
+		par.EnableErc20 = !par.EnableErc20
+		par.Beacon = "0x00000000000000000000000000000000000000be"
+	}
+	if err := k.SetParams(e.ctx, par); err != nil {
+		verifFail("valid params rejected: " + err.Error())
 	}
 	if err := k.AddToken(e.ctx, v1.GetNativeToken(), false); err != nil {
 		verifFail("native token rejected")
@@ -127,7 +137,7 @@ func VerifC12_Token() {
 	for _, who := range []sdk.AccAddress{owner, other} {
 		verifAssert(verifDeepEqual(k.GetTokens(e.ctx, who), k2.GetTokens(e2.ctx, who)), "the tokens-by-owner query answers identically after re-import")
 	}
-	verifAssert(verifDeepEqual(k.GetParams(e.ctx), k2.GetParams(e2.ctx)), "the params answer identically after re-import")
+	verifAssert(verifDeepEqual(k.GetParams(e.ctx), k2.GetParams(e2.ctx)) && verifDeepEqual(k2.GetParams(e2.ctx), par), "the params in force answer identically after re-import")
 	g2 := ExportGenesis(e2.ctx, k2)
 	verifAssert(verifDeepEqual(*g, *g2), "a second export equals the first")
 }
